@@ -222,4 +222,12 @@ def obligations(tier, seed):
                            f"files of {nsec} sector(s), every size and marker pair inside; P <= 10; sectors <= 40"))
     obs.append(_ob("C01.window", "h_window", [], T, "every field the window expressions read", "full field ranges (u16/u24/u32)", twin=True))
     obs.append(_ob("C01.rate", "h_rate", [], T, "sampling_rate word, channel count", "0..65535"))
+    # shared kernels: the SAT decoder / chain walk / bytes over the chain (C07) and the L/R pairing of one directory (C05)
+    from vf.props import c07, c05
+    for o in c07.obligations(tier, seed):
+        if o["name"].startswith(("C07.akai/n=3", "C07.bytes")) or (not q and o["name"].startswith("C07.akai/n=4")):
+            obs.append(dict(o, name=o["name"].replace("C07.", "C01.sat/")))
+    for o in c05.obligations(tier, seed):
+        if o["name"].startswith("C05.pair"):
+            obs.append(dict(o, name=o["name"].replace("C05.pair", "C01.pairs")))
     return obs
